@@ -139,7 +139,7 @@ def compare(ctx: common.Ctx, prog: dict[str, Any], cfg: str, ref: dict[str, Any]
 def run(ctx: common.Ctx) -> None:
     quick = ctx.tier == "quick"
     scale = float(os.environ.get("VERIF_SCALE", "1"))
-    n_prog = max(1, round((8 if quick else 100) * scale))
+    n_prog = max(1, round((8 if quick else 80) * scale))
     n_units = 42 if quick else 50
     n_corpus = 0 if quick else max(0, round(900 * scale))
     ctx.rule = ("generated 3-module programs (template units: one primitive/loop helper/call shape/class feature/generator/closure/"
